@@ -55,11 +55,19 @@ extern "C" void h_sets(void) {
         Result d = b; d.makeSetIntersection(a);                   // commutative
         CHECK(d.conditionSatisfied() == c.conditionSatisfied()); CHECK(maskof(d) == maskof(c));
     }
-    {   // OR: disjunction; union
-        Result c = a; c.makeSetUnion(b);
+    {   // OR: disjunction; union of the sets of the TRUE operands (a scalar or a false operand contributes no set).  The lhs is the
+        // accumulator of ASTNode::evalLogicalOperation, which starts as Result(false) without a set and only ever receives sets from true
+        // operands, so a false lhs carries no set in any reachable state; a false rhs (a child result) may carry any set and must be ignored.
+        Result c = (!ta && sa) ? Result(false) : a; c.makeSetUnion(b);
         CHECK(c.conditionSatisfied() == (ta || tb));
-        unsigned e = !(ta || tb) ? 0u : (ma | mb);
+        const bool has = (ta && sa) || (tb && sb);                // does the OR node carry a set at all
+        unsigned e = (ta ? ma : 0u) | (tb ? mb : 0u);
         check_range(c, e);
+        // ... which a following AND with a well-level operand shows: no set -> the other operand's set, a set (even empty) -> the intersection
+        unsigned mt; Result t = mk(true, true, 1, mt);
+        Result f = c; f.makeSetIntersection(t);
+        CHECK(f.conditionSatisfied() == (ta || tb));
+        check_range(f, !(ta || tb) ? 0u : (has ? (e & mt) : mt));
     }
     CHECK((a == b) == (ta == tb && ((sa ? 1 : 0) == (sb ? 1 : 0)) && ma == mb) || (sa != sb));   // equality is on truth + set
 }
